@@ -2,14 +2,38 @@
 What a document call EMITS is an applicable remote operation with the SAME effect (C01/C02/C05 for documents).
 Everything lives in namespace `Orda.DLR`.
 
+RESULT.  The two statements of the task are FALSE as given (`Counter.local_call_statement_false`,
+`Counter.receiver_statement_false`), for reasons the invariant `DP.DocInv` cannot see:
+  (a) `dinsert h pos []` succeeds and queues an insert of an EMPTY batch, which `GoodD` (`ACausal.nonempty`) refuses — in
+      a reachable state;
+  (b) `DP.DInv` records neither a causal insertion history of the arrays (`OrdOK` inside `GoodD` asks for one) nor that no
+      slot carries the head's identity `Ts.oldest`; in such a (non-reachable) state a local insert reports the anchor
+      `Ts.oldest`, the receiver inserts at the head: the replicas show different JSON (`Counter.dX`).
+What IS proved:
+* `local_call_is_applicable_remote_op_partial` — the first statement verbatim under two extra hypotheses that are void for
+  every call but `dinsert`: `HistOK d` (every array has a causal insertion history) and "not an insert of an empty batch";
+  the documents are EQUAL (`local_call_is_applicable_remote_op_eq`: `(r.call c).1.state = .doc (applyD d x)`);
+* `local_call_is_applicable_remote_op_noInsert` — verbatim, no extra hypothesis, for every call but `dinsert`;
+* `local_call_is_applicable_remote_op_weak` — no extra hypothesis, `GoodD` replaced by `GoodW` (= `GoodD` without `OrdOK`;
+  `goodD_of_goodW`, `goodW_of_goodD`), which still carries `DR.docInv_remote` (`docInv_remote_weak`) and
+  `execRemoteBase_is_applyD` (`execRemoteBase_is_applyD_weak`); for `DM.mixed_converge` the clause `OrdOK` is what is missing;
+* `receiver_reaches_senders_state_partial` — the second statement verbatim under "no slot carries `Ts.oldest`";
+* `histOK_life` — `HistOK` holds in EVERY state reachable by public calls and deliveries of applicable operations
+  (`DR.Life`), hence `life_local_call_is_applicable_remote_op` (first statement verbatim for reachable replicas, proviso:
+  no empty insert) and `life_receiver_reaches_senders_state` (second statement verbatim for reachable senders).
+
 Contents
 * 1. inversion of a successful mutating call (`Prepared`, `call_ok_inv`).
 * 2. the local operations against the remote ones, on `Doc`: `put_local_remote`, `remove_local_remote`,
-  `insert_local_remote` (the skip loop of `insertAfterId` stops at once), `delete_local_remote`, `update_local_remote`
+  `insert_local_remote` (the skip loop of `insertAfterId` stops at once), `delete_local_remote`, `upd_local_remote_go`
   — EXACT equality of the resulting documents.
 * 3. applicability of the single-target operations of a local delete / update (`goodE_flatDel`, `goodE_flatUpd`).
 * 4. causal insertion histories of the arrays: `ArrHist`, `HistOK`, `foldIds_mem_iff`, `hist_extend`.
-* 5. the theorems.
+* 5. `update_local_remote`, `GoodW`, `exec_core`, the theorems for one call.
+* 6. the histories are an invariant: `histOK_run`, `histOK_applyE`, `histOK_applyOp`, `histOK_applyD`, `histOK_life`; the
+  theorems for reachable replicas; `docInv_remote_weak`.
+* 7. `ExLR`: non-vacuity (nested array, insert in the middle, update; emitted operations shown; theorems instantiated).
+* 8. `Counter`: the counterexamples (both statements as given, formally refuted).
 -/
 import Orda.Proofs.DocRemoteInv
 set_option linter.unusedSimpArgs false
@@ -697,6 +721,8 @@ theorem hist_noHead {d : Doc} {p : Ts} (h : ArrHist d p) : Ts.oldest ∉ slotIds
   obtain ⟨o, ho, hx⟩ := (foldIds_mem_iff M0 hc _).mp hm
   exact hc.notHead o ho (hc.samekey o ho _ hx).symm
 
+/-! ## 5. one call: the remote operation its wire form denotes -/
+
 /-- facts about an array of a document with the invariant -/
 theorem arr_facts {L : OpId} {d : Doc} (I : DInv L 0 d) {p : Ts} {pn : DNode} {slots : List (Ts × Ts)} {size : Int}
     (hp : d.findArr p = some (pn, slots, size)) :
@@ -1108,7 +1134,7 @@ theorem exec_core {L : OpId} {d : Doc} (I : DInv L 0 d) {c : Call} {b : OpBody} 
       exact ⟨.a (.upd h L.next.ts tgs vs), d', rfl, rfl, ⟨hn, hk⟩, hw, fun _ => by simp only [applyD, applyA, h1],
         fun _ => goodD_of_goodW_noIns hw (by intro p a ts vs e; cases e), by intro p a ts vs e; cases e⟩
 
-/-! ## 5. the theorems -/
+/-! ### the theorems for one call -/
 
 /-- the common core: a successful mutating document call queues exactly one operation; it denotes a remote operation `x`
     that carries acceptable values, belongs to the replica's era and is applicable up to the history clause (`GoodW`);
@@ -1245,5 +1271,837 @@ theorem histOK_noHeadSlots {d : Doc} (h : HistOK d) : ∀ p, Ts.oldest ∉ slotI
     cases hf : d.findArr p with
     | none => simp
     | some x => rw [hf] at hp; exact absurd rfl hp
+
+/-! ## 6. the histories are an invariant -/
+
+/-- a list of order identifiers with a causal insertion history -/
+def Hist (l : List Ts) : Prop := ∃ M0, l = foldIds [] M0 ∧ ACausal M0
+
+theorem hist_nil : Hist [] :=
+  ⟨[], rfl, ⟨by simp, by simp, by simp, by simp, List.Pairwise.nil, by intro i hi; simp at hi⟩⟩
+
+theorem acausal_single {cs : List Ts} {k : Nat × Nat × String} (hne : cs ≠ []) (hnd : cs.Nodup)
+    (hk : ∀ x ∈ cs, x.key = k) (hko : k ≠ Ts.oldest.key) : ACausal [⟨Ts.oldest, cs⟩] := by
+  have hkey : (AIns.mk Ts.oldest cs).ts0.key = k := ts0_key_of_mem hne hk
+  refine ⟨?_, ?_, ?_, ?_, by simp, ?_⟩
+  · intro o ho; simp only [List.mem_singleton] at ho; subst ho; exact hne
+  · intro o ho x hx; simp only [List.mem_singleton] at ho; subst ho; rw [hkey]; exact hk x hx
+  · intro o ho; simp only [List.mem_singleton] at ho; subst ho; exact hnd
+  · intro o ho; simp only [List.mem_singleton] at ho; subst ho; rw [hkey]; exact hko
+  · intro i hi
+    have : i = 0 := by simpa using hi
+    subst this
+    exact Or.inl rfl
+
+/-- a batch of fresh identifiers of one key (the children of a freshly created array) has a history -/
+theorem hist_fresh {cs : List Ts} {k : Nat × Nat × String} (hnd : cs.Nodup) (hk : ∀ x ∈ cs, x.key = k)
+    (hko : k ≠ Ts.oldest.key) : Hist cs := by
+  by_cases hne : cs = []
+  · subst hne; exact hist_nil
+  · exact ⟨[⟨Ts.oldest, cs⟩], (foldIds_fresh cs).symm, acausal_single hne hnd hk hko⟩
+
+theorem isArr_iff_arrV {d : Doc} {q : Ts} : IsArr d q ↔ (arrV (d.find q)).isSome := by
+  unfold IsArr
+  rw [findArr_isSome_iff]
+  unfold idsOf
+  cases arrV (d.find q) <;> simp
+
+theorem slotIds_of_arrV (d : Doc) (q : Ts) : slotIds d q = ((arrV (d.find q)).map (List.map (·.1))).getD [] := by
+  rw [slotIds_eq_idsOf]; rfl
+
+theorem arrHist_iff {d : Doc} {p : Ts} : ArrHist d p ↔ Hist (slotIds d p) := Iff.rfl
+
+/-- history of one array: only the slots of the node matter -/
+theorem arrHist_congr {d d' : Doc} {q : Ts} (h : arrV (d'.find q) = arrV (d.find q)) (hh : IsArr d q → ArrHist d q) :
+    IsArr d' q → ArrHist d' q := by
+  intro hq
+  rw [isArr_iff_arrV, h, ← isArr_iff_arrV] at hq
+  have := hh hq
+  rw [arrHist_iff, slotIds_of_arrV] at this ⊢
+  rw [h]; exact this
+
+theorem histOK_docEq {a b : Doc} (h : DocEq a b) (hh : HistOK a) : HistOK b :=
+  fun q => arrHist_congr (by rw [h q]) (hh q)
+
+/-- the arrays among freshly created nodes have a history (one insert at the head) -/
+theorem hist_new_node {t t' : Ts} {ns : List DNode} (hb : Block t ns t') (hok : ∀ n ∈ ns, DP.NodeOK n)
+    (hkey : t.key ≠ Ts.oldest.key) {n : DNode} (hn : n ∈ ns) {sl : List (Ts × Ts)} (h : arrV (some n) = some sl) :
+    Hist (sl.map (·.1)) := by
+  have hk : ∃ s, n.kind = .arr sl s := by
+    obtain ⟨nc, nd, np, nk⟩ := n
+    cases nk with
+    | elem v => simp [arrV] at h
+    | obj m s => simp [arrV] at h
+    | arr sl' s =>
+      simp only [arrV, Option.some.injEq] at h
+      exact ⟨s, by rw [h]⟩
+  obtain ⟨s, hk⟩ := hk
+  have hno := hok n hn
+  unfold DP.NodeOK at hno
+  rw [hk] at hno
+  simp only at hno
+  have hkids : kids n.kind = sl.map (·.2) := by rw [hk]; rfl
+  rw [hno.2]
+  apply hist_fresh (k := t.key) _ _ hkey
+  · have := hb.inj n hn; rwa [hkids] at this
+  · intro x hx
+    obtain ⟨nc, hnc, rfl, _⟩ := hb.links n hn x (by rw [hkids]; exact hx)
+    have : nc.c ∈ ids ns := List.mem_map.mpr ⟨nc, hnc, rfl⟩
+    rw [hb.ids] at this
+    obtain ⟨i, _, hi⟩ := DC.mem_delimSeq.mp this
+    rw [hi]; rfl
+
+/-- the slots of a node after an effect -/
+theorem run_arrV (e : Eff) (F : Ts → Option DNode) (hg : ∀ o, arrV (e.g o) = arrV o) (hp : e.p ∉ ids e.ns) (q : Ts) :
+    arrV (e.run F q) = if q ∈ ids e.ns then arrV (nfind e.ns q) else if q = e.p then arrV (e.s (F q)) else arrV (F q) := by
+  unfold Eff.run
+  have h1 : arrV (upd e.x e.g (upd e.p e.s (U e.ns F)) q) = arrV (upd e.p e.s (U e.ns F) q) := by
+    by_cases hx : q = e.x
+    · subst hx; rw [upd_same, hg]
+    · rw [upd_other _ _ hx]
+  rw [h1]
+  by_cases hn : q ∈ ids e.ns
+  · have hqp : q ≠ e.p := fun e' => hp (e' ▸ hn)
+    rw [upd_other _ _ hqp, if_pos hn]
+    unfold U
+    obtain ⟨n, hn'⟩ := Option.isSome_iff_exists.mp (nfind_isSome_iff.mpr hn)
+    rw [hn']; rfl
+  · rw [if_neg hn]
+    by_cases hqp : q = e.p
+    · subst hqp; rw [upd_same, U_old hn, if_pos rfl]
+    · rw [upd_other _ _ hqp, U_old hn, if_neg hqp]
+
+/-- the histories after an effect: new nodes bring theirs, the parent's is supplied, the rest is untouched -/
+theorem histOK_run {d d' : Doc} {e : Eff} (hf : d'.find = e.run d.find) (hh : HistOK d)
+    (hg : ∀ o, arrV (e.g o) = arrV o) (hp : e.p ∉ ids e.ns)
+    (hnew : ∀ n ∈ e.ns, ∀ sl, arrV (some n) = some sl → Hist (sl.map (·.1)))
+    (hs : IsArr d' e.p → ArrHist d' e.p) : HistOK d' := by
+  intro q
+  have hrun := run_arrV e d.find hg hp q
+  rw [← hf] at hrun
+  by_cases hn : q ∈ ids e.ns
+  · rw [if_pos hn] at hrun
+    intro hq
+    rw [arrHist_iff, slotIds_of_arrV, hrun]
+    obtain ⟨n, hn'⟩ := Option.isSome_iff_exists.mp (nfind_isSome_iff.mpr hn)
+    rw [isArr_iff_arrV, hrun, hn'] at hq
+    obtain ⟨sl, hsl⟩ := Option.isSome_iff_exists.mp hq
+    rw [hn', hsl]
+    exact hnew n (nfind_some hn').1 sl hsl
+  · rw [if_neg hn] at hrun
+    by_cases hqp : q = e.p
+    · subst hqp; exact hs
+    · rw [if_neg hqp] at hrun
+      exact arrHist_congr hrun (hh q)
+
+theorem stepIds_nil (l : List Ts) (a : Ts) : stepIds l a [] = l := by
+  unfold stepIds
+  cases h : insertAfterId id a [] l with
+  | none => rfl
+  | some l' =>
+    simp only [Option.getD_some]
+    have hp := insertAfterId_perm id a [] l l' h
+    have hs := insertAfterId_sublist id a [] l l' h
+    exact (hs.eq_of_length (by simpa using hp.length_eq.symm)).symm
+
+/-- the nodes of an elementary operation form a block of well-shaped nodes -/
+theorem nodesE_block (e : EOp) : ∃ t', Block e.ts (nodesE e) t' ∧ ∀ n ∈ nodesE e, DP.NodeOK n := by
+  cases e with
+  | ins p a ts vs =>
+    simp only [nodesE, EOp.ts]
+    cases hc : createMany p ts vs with
+    | err c => exact ⟨ts, block_nil _, by simp⟩
+    | panic w => exact ⟨ts, block_nil _, by simp⟩
+    | ok y =>
+      obtain ⟨ns, cs, t'⟩ := y
+      exact ⟨t', (createMany_block hc).1, (DP.createArrItems_spec2 p ts vs ns cs t' hc).1⟩
+  | del1 p tg t => exact ⟨t, block_nil _, by simp [nodesE]⟩
+  | upd1 p tg t v =>
+    simp only [nodesE, EOp.ts]
+    cases hc : createNode p t v with
+    | err c => exact ⟨t, block_nil _, by simp⟩
+    | panic w => exact ⟨t, block_nil _, by simp⟩
+    | ok y =>
+      obtain ⟨ns, c, t'⟩ := y
+      exact ⟨t', (createNode_spec p t v _ hc).1, (DP.createNode_spec2 p t v _ hc).1⟩
+
+/-- **elementary array operations keep the histories**: an insert extends the history of its array (`hins`: the batch
+    is empty or the extended history is causal), the arrays among the new nodes start theirs (`hkey`) -/
+theorem histOK_applyE {d : Doc} (hwf : d.WF) (hh : HistOK d) (e : EOp) (he : EOK d e)
+    (hkey : nodesE e = [] ∨ e.ts.key ≠ Ts.oldest.key)
+    (hins : ∀ p a ts vs, e = .ins p a ts vs → newSlots e = [] ∨ Hist (stepIds (slotIds d p) a (newSlots e))) :
+    HistOK (applyE d e) := by
+  have hsh := eshape e he
+  have hf := find_applyE hwf e he
+  obtain ⟨pn, sl, sz, hp⟩ := isArr_iff.mp he.isArr
+  obtain ⟨hp1, _⟩ := findArr_some_iff.mp hp
+  apply histOK_run hf hh hsh.g_arrV
+  · rw [hsh.p, hsh.ns]; exact fresh_not_mem he.fresh hp1
+  · rw [hsh.ns]
+    intro n hn sl' hsl'
+    rcases hkey with hk | hk
+    · rw [hk] at hn; cases hn
+    · obtain ⟨t', hb, hok⟩ := nodesE_block e
+      exact hist_new_node hb hok hk hn hsl'
+  · rw [hsh.p]
+    intro hq
+    rw [arrHist_iff, slotIds_applyE hwf he (isArr_find he.isArr)]
+    cases hi : insOnE e.p e with
+    | none => exact hh e.p he.isArr
+    | some o =>
+      simp only
+      cases e with
+      | ins p a ts vs =>
+        simp only [insOnE, EOp.p, if_true, Option.some.injEq] at hi
+        subst hi
+        simp only [EOp.p]
+        rcases hins p a ts vs rfl with h | h
+        · rw [h, stepIds_nil]; exact hh p he.isArr
+        · exact h
+      | del1 p tg t => simp [insOnE] at hi
+      | upd1 p tg t v => simp [insOnE] at hi
+
+theorem histOK_applyAllE : ∀ (l : List EOp) {d : Doc}, GoodE d l → HistOK d →
+    (∀ e ∈ l, (nodesE e = [] ∨ e.ts.key ≠ Ts.oldest.key) ∧ ∀ q, insOnE q e = none) → HistOK (applyAllE d l)
+  | [], d, _, hh, _ => hh
+  | e :: l, d, hg, hh, hk => by
+    have hok : EOK d e := hg.2.1 e (by simp)
+    have h1 := histOK_applyE hg.1 hh e hok (hk e (by simp)).1 (by
+      intro p a ts vs he
+      have := (hk e (by simp)).2 p
+      rw [he] at this
+      simp [insOnE] at this)
+    exact histOK_applyAllE l (goodE_step hg) h1 (fun e' he' => hk e' (List.mem_cons_of_mem _ he'))
+
+theorem arrV_skG_obj (m : List (String × Ts)) (s : Int) (o : Option DNode) : arrV (skG (.obj m s) o) = none := by
+  cases o with
+  | none => rfl
+  | some n =>
+    obtain ⟨nc, nd, np, nk⟩ := n
+    cases nk <;> rfl
+
+/-- **object operations keep the histories** -/
+theorem histOK_applyOp {d : Doc} (hwf : d.WF) (hh : HistOK d) (o : ObjOp) (ho : OpOK d o)
+    (hkey : nodesOf o = [] ∨ o.ts.key ≠ Ts.oldest.key) : HistOK (applyOp d o) := by
+  have hsh := effShape hwf o ho
+  have hf := find_applyOp_eff hwf o ho
+  obtain ⟨no, hno⟩ := parent_in_table ho
+  apply histOK_run hf hh
+  · intro x
+    rcases hsh.g with h | ⟨t, h⟩ | ⟨t, h⟩ <;> rw [h]
+    · rfl
+    · exact arrV_fun1 t x
+    · exact arrV_setD t x
+  · rw [hsh.p, hsh.ns]; exact not_mem_nodes_of_table ho hno
+  · rw [hsh.ns]
+    intro n hn sl' hsl'
+    rcases hkey with hk | hk
+    · rw [hk] at hn; cases hn
+    · cases o with
+      | put p k v ts =>
+        simp only [nodesOf] at hn
+        cases hc : createNode p ts v with
+        | err c => rw [hc] at hn; cases hn
+        | panic w => rw [hc] at hn; cases hn
+        | ok y =>
+          obtain ⟨ns, c, t'⟩ := y
+          rw [hc] at hn
+          exact hist_new_node (createNode_spec p ts v _ hc).1 (DP.createNode_spec2 p ts v _ hc).1 hk hn hsl'
+      | del p k ts => simp [nodesOf] at hn
+  · rw [hsh.p]
+    intro hq
+    exact absurd rfl (obj_ne_arr (isObj_after_op hwf o ho (opOK_isObj ho)) hq)
+
+/-- the new nodes of an operation (if any) do not carry the key of the head -/
+def KeyOK : DOp → Prop
+  | .o y => nodesOf y = [] ∨ y.ts.key ≠ Ts.oldest.key
+  | .a y => ∀ e ∈ flat y, nodesE e = [] ∨ e.ts.key ≠ Ts.oldest.key
+
+theorem goodE_of_goodW_noIns {d : Doc} {y : AOp} (h : GoodW d (.a y)) (hy : ∀ p a ts vs, y ≠ .ins p a ts vs) :
+    GoodE d (flat y) :=
+  ⟨h.1, h.2.1, h.2.2.1, noIns_ordOK d _ (flat_noIns hy)⟩
+
+/-- **a remote operation keeps the histories**: applicable up to the history clause, new nodes away from the head's
+    key; an insert brings the history clause for its array (or an empty batch) -/
+theorem histOK_applyD {d : Doc} {x : DOp} (hh : HistOK d) (hw : GoodW d x) (hk : KeyOK x)
+    (hins : ∀ p a ts vs, x = .a (.ins p a ts vs) → vs = [] ∨ OrdOK d [.ins p a ts vs]) : HistOK (applyD d x) := by
+  cases x with
+  | o y => exact histOK_applyOp hw.1 hh y hw.2 hk
+  | a y =>
+    by_cases hy : ∃ p a ts vs, y = .ins p a ts vs
+    · obtain ⟨p, a, ts, vs, rfl⟩ := hy
+      have he : EOK d (.ins p a ts vs) := hw.2.1 _ (by simp [flat])
+      show HistOK (applyE d (.ins p a ts vs))
+      apply histOK_applyE hw.1 hh _ he (hk _ (by simp [flat]))
+      intro p' a' ts' vs' e
+      simp only [EOp.ins.injEq] at e
+      obtain ⟨rfl, rfl, rfl, rfl⟩ := e
+      rcases hins p a ts vs rfl with h | h
+      · left; subst h; simp [newSlots, createMany, createArrItems]
+      · right
+        obtain ⟨M0, hb, hc⟩ := h p ⟨.ins p a ts vs, by simp, by simp [insOnE]⟩
+        have := hc [⟨a, newSlots (.ins p a ts vs)⟩] (by simp [insOnE])
+        exact ⟨M0 ++ [⟨a, newSlots (.ins p a ts vs)⟩], by rw [foldIds_snoc, ← hb], this⟩
+    · have hy' : ∀ p a ts vs, y ≠ .ins p a ts vs := fun p a ts vs e => hy ⟨p, a, ts, vs, e⟩
+      have hg := goodE_of_goodW_noIns hw hy'
+      have heq : DocEq (applyA d y) (applyAllE d (flat y)) := applyA_flat (rest := []) (by simpa using hg) hw.2.2.2
+      exact histOK_docEq (docEq_symm heq)
+        (histOK_applyAllE (flat y) hg hh (fun e he => ⟨hk e he, flat_noIns hy' e he⟩))
+
+theorem key_ne_of_absent {d : Doc} (hroot : (d.find Ts.oldest).isSome) {t : Ts} (h0 : t.delim = 0)
+    (hf : d.find t = none) : t.key ≠ Ts.oldest.key := by
+  intro e
+  have : t = Ts.oldest := by
+    obtain ⟨a, b, c, dl⟩ := t
+    simp only [Ts.key, Ts.oldest, Prod.mk.injEq] at e h0 ⊢
+    obtain ⟨rfl, rfl, rfl⟩ := e
+    subst h0
+    rfl
+  rw [this] at hf
+  rw [hf] at hroot
+  cases hroot
+
+theorem flatUpd_after {p : Ts} : ∀ {tgs : List Ts} {vs : List JVal} {t : Ts} {e : EOp},
+    e ∈ flatUpd p tgs vs t → ∃ tg v t1, After t t1 ∧ e = .upd1 p tg t1 v
+  | [], _, _, _, h => by simp [flatUpd] at h
+  | _ :: _, [], _, _, h => by simp [flatUpd] at h
+  | tg :: tgs, v :: vs, t, e, h => by
+    simp only [flatUpd, List.mem_cons] at h
+    rcases h with rfl | h
+    · exact ⟨tg, v, t, ⟨rfl, rfl, rfl, Nat.le_refl _⟩, rfl⟩
+    · obtain ⟨tg', v', t1, h3, h4⟩ := flatUpd_after h
+      refine ⟨tg', v', t1, ?_, h4⟩
+      cases hc : createNode p t v with
+      | ok y =>
+        obtain ⟨ns, c, t'⟩ := y
+        rw [hc] at h3
+        simp only at h3
+        obtain ⟨_, _, _, ht', _⟩ := createNode_ids hc
+        obtain ⟨a1, a2, a3, a4⟩ := h3
+        rw [ht'] at a1 a2 a3 a4
+        simp only [addDelim] at a1 a2 a3 a4
+        exact ⟨a1, a2, a3, by omega⟩
+      | err c => rw [hc] at h3; exact h3
+      | panic w => rw [hc] at h3; exact h3
+
+/-- the timestamp of a wire operation has delimiter 0; its first new node carries it and is fresh, the head is in the
+    table: the new nodes are away from the head's key -/
+theorem keyOK_of_goodW {d : Doc} {x : DOp} (hroot : (d.find Ts.oldest).isSome) (h0 : (dts x).delim = 0)
+    (hw : GoodW d x) : KeyOK x := by
+  cases x with
+  | o y =>
+    cases y with
+    | put p k v ts =>
+      right
+      obtain ⟨_, ⟨ns, c, t', hc⟩, hf⟩ := hw.2
+      have hn : nodesOf (.put p k v ts) = ns := by simp only [nodesOf, hc]
+      rw [hn] at hf
+      obtain ⟨_, _, n0, rest, hns, hn0, _⟩ := createNode_spec p ts v _ hc
+      simp only at hns hn0
+      exact key_ne_of_absent hroot h0 (hf ts (by rw [hns]; simp [ids, hn0]))
+    | del p k ts => left; rfl
+  | a y =>
+    cases y with
+    | ins p a ts vs =>
+      intro e he
+      simp only [flat, List.mem_singleton] at he
+      subst he
+      obtain ⟨_, ⟨ns, cs, t', hc⟩, hf, _, _⟩ := hw.2.1 (.ins p a ts vs) (by simp [flat])
+      have hn : nodesE (.ins p a ts vs) = ns := by simp only [nodesE, hc]
+      rw [hn] at hf ⊢
+      cases hns : ns with
+      | nil => left; rfl
+      | cons n0 rest =>
+        right
+        have hb := (createMany_block hc).1
+        have hids := hb.ids
+        rw [hns] at hids
+        simp only [ids, List.map_cons, List.length_cons, delimSeq, List.cons.injEq] at hids
+        exact key_ne_of_absent hroot (t := ts) h0 (hf ts (by rw [hns]; simp [ids, hids.1]))
+    | del p tgs ts =>
+      intro e he
+      obtain ⟨tg, t1, _, rfl⟩ := flatDel_mem he
+      left; rfl
+    | upd p ts tgs vs =>
+      intro e he
+      simp only [flat] at he
+      obtain ⟨tg', v', t1, haft, rfl⟩ := flatUpd_after he
+      right
+      have hkey : t1.key = ts.key := by
+        simp only [Ts.key, haft.1, haft.2.1, haft.2.2.1]
+      simp only [EOp.ts]
+      rw [hkey]
+      cases tgs with
+      | nil => simp [flatUpd] at he
+      | cons tg tgs =>
+        cases vs with
+        | nil => simp [flatUpd] at he
+        | cons v vs =>
+          obtain ⟨_, ⟨ns, c, t', hc⟩, hf, _⟩ := hw.2.1 (.upd1 p tg ts v) (by simp [flat, flatUpd])
+          have hn : nodesE (.upd1 p tg ts v) = ns := by simp only [nodesE, hc]
+          rw [hn] at hf
+          obtain ⟨_, _, n0, rest, hns, hn0, _⟩ := createNode_spec p ts v _ hc
+          simp only at hns hn0
+          exact key_ne_of_absent hroot h0 (hf ts (by rw [hns]; simp [ids, hn0]))
+
+/-! ### along a replica's life -/
+
+/-- a call that is not a mutating document call leaves the replica alone -/
+theorem call_nonmut {r : Replica} {d : Doc} (hs : r.state = .doc d) {c : Call} (hm : DP.isMutating c = false) :
+    (r.call c).1 = r := by
+  have hdone : ∀ o, c.prepare r.state = .done o → (r.call c).1 = r := fun o h => by rw [DP.call_of_done h]
+  have herr : ∀ (b : OpBody) (post : Ret → Ret), c.prepare r.state = .op b post → b.isMeta = false →
+      execLocal r.state r.opId.next.ts b = .err Err.illegalOperation → (r.call c).1 = r :=
+    fun b post h1 h2 h3 => by rw [DP.call_of_err h1 h2 h3]
+  cases c with
+  | inc x => exact herr _ _ (by rw [hs]; rfl) rfl (by rw [hs]; rfl)
+  | mput k v =>
+    by_cases hkv : (k = "" || v.isNull) = true
+    · exact hdone (.err Err.illegalParameters) (by rw [hs]; simp only [Call.prepare, hkv, if_true])
+    · exact herr (.put k v) id (by rw [hs]; simp only [Call.prepare, hkv]; rfl) rfl (by rw [hs]; rfl)
+  | mremove k =>
+    by_cases hkv : k = ""
+    · exact hdone (.err Err.illegalParameters) (by rw [hs]; simp only [Call.prepare, hkv, if_true])
+    · exact herr (.remove k) id (by rw [hs]; simp only [Call.prepare, hkv]; rfl) rfl (by rw [hs]; rfl)
+  | mget k => exact hdone (.err Err.illegalOperation) (by rw [hs]; rfl)
+  | msize => exact hdone (.err Err.illegalOperation) (by rw [hs]; rfl)
+  | linsert p vs => exact hdone (.err Err.illegalOperation) (by rw [hs]; rfl)
+  | ldelete p => exact hdone (.err Err.illegalOperation) (by rw [hs]; rfl)
+  | ldeleteMany p n => exact hdone (.err Err.illegalOperation) (by rw [hs]; rfl)
+  | lupdate p vs => exact hdone (.err Err.illegalOperation) (by rw [hs]; rfl)
+  | lget p => exact hdone (.err Err.illegalOperation) (by rw [hs]; rfl)
+  | lgetMany p n => exact hdone (.err Err.illegalOperation) (by rw [hs]; rfl)
+  | lsize => exact hdone (.err Err.illegalOperation) (by rw [hs]; rfl)
+  | dput h k v => simp [DP.isMutating] at hm
+  | dremove h k => simp [DP.isMutating] at hm
+  | dinsert h p vs => simp [DP.isMutating] at hm
+  | ddelete h p => simp [DP.isMutating] at hm
+  | ddeleteMany h p n => simp [DP.isMutating] at hm
+  | dupdate h p vs => simp [DP.isMutating] at hm
+  | dgetObj h k =>
+    have : ∃ o, (Call.dgetObj h k).prepare r.state = .done o := by
+      rw [hs]
+      show ∃ o, (Call.dgetObj h k).prepareDoc d = .done o
+      simp only [Call.prepareDoc]
+      repeat' split
+      all_goals exact ⟨_, rfl⟩
+    obtain ⟨o, ho⟩ := this
+    exact hdone o ho
+  | dgetArr h p n =>
+    have : ∃ o, (Call.dgetArr h p n).prepare r.state = .done o := by
+      rw [hs]
+      show ∃ o, (Call.dgetArr h p n).prepareDoc d = .done o
+      simp only [Call.prepareDoc]
+      repeat' split
+      all_goals exact ⟨_, rfl⟩
+    obtain ⟨o, ho⟩ := this
+    exact hdone o ho
+  | dvalue h => exact hdone _ (by rw [hs]; rfl)
+
+theorem histOK_empty : HistOK Doc.empty := by
+  intro p hp
+  exfalso
+  obtain ⟨pn, sl, sz, h⟩ := isArr_iff.mp hp
+  obtain ⟨h1, h2⟩ := findArr_some_iff.mp h
+  obtain ⟨_, rfl⟩ := DP.find_empty h1
+  cases h2
+
+theorem ordOK_of_goodD_ins {d : Doc} {p a ts : Ts} {vs : List JVal} (h : GoodD d [.a (.ins p a ts vs)]) :
+    OrdOK d [.ins p a ts vs] := by
+  have := (goodD_arr h).1.2.2.2
+  simpa [flat] using this
+
+/-- a call keeps the histories -/
+theorem histOK_call (r : Replica) (d : Doc) (hs : r.state = .doc d) (h : DP.DocInv r) (hh : HistOK d) (c : Call)
+    (hk : DP.CallKeysND c) : ∀ d', (r.call c).1.state = .doc d' → HistOK d' := by
+  intro d' hd'
+  have same : (r.call c).1 = r → HistOK d' := by
+    intro e
+    rw [e, hs] at hd'
+    simp only [DState.doc.injEq] at hd'
+    exact hd' ▸ hh
+  by_cases hm : DP.isMutating c = true
+  · cases hres : (r.call c).2 with
+    | err e => exact same (DP.doc_call_err_noop r c h e hres)
+    | panic w => exact absurd hres (DP.doc_call_no_panic r c h w)
+    | ok v =>
+      obtain ⟨o, x, d1, h1, h2, h3, h4, h5, h6, h7, h8, h9, h10⟩ := local_call_core r d hs h c hk hm v hres
+      obtain ⟨d0, hs0, I, _⟩ := h
+      rw [hs] at hs0
+      simp only [DState.doc.injEq] at hs0
+      subst hs0
+      have hn : NoHead d x := by
+        cases x with
+        | o y => trivial
+        | a y =>
+          cases y with
+          | ins p a ts vs => exact histOK_noHeadSlots hh p
+          | del p tgs ts => trivial
+          | upd p ts tgs vs => trivial
+      rw [h3] at hd'
+      simp only [DState.doc.injEq] at hd'
+      rw [← hd', ← h8 hn]
+      obtain ⟨m, s, hroot⟩ := I.root
+      apply histOK_applyD hh h7 (keyOK_of_goodW (by simp [hroot]) (by rw [toDOp_ts h4]; rfl) h7)
+      intro p a ts vs e
+      subst e
+      by_cases hv : vs = []
+      · exact Or.inl hv
+      · right
+        have he : EOK d (.ins p a ts vs) := h7.2.1 _ (by simp [flat])
+        exact ordOK_of_goodD_ins (h9 ⟨hh p he.1, hv⟩)
+  · exact same (call_nonmut hs (by simpa using hm))
+
+/-- the delivery of an applicable remote operation keeps the histories -/
+theorem histOK_remote (r : Replica) (d : Doc) (hs : r.state = .doc d) (h : DP.DocInv r) (hh : HistOK d) (o : Op) (x : DOp)
+    (hx : toDOp o = some x) (hok : GoodD d [x]) : ∀ d', (r.execRemoteBase o).1.state = .doc d' → HistOK d' := by
+  intro d' hd'
+  rw [(execRemoteBase_is_applyD r d hs o x hx hok).1] at hd'
+  simp only [DState.doc.injEq] at hd'
+  rw [← hd']
+  obtain ⟨d0, hs0, I, _⟩ := h
+  rw [hs] at hs0
+  simp only [DState.doc.injEq] at hs0
+  subst hs0
+  obtain ⟨m, s, hroot⟩ := I.root
+  have hw := goodW_of_goodD hok
+  apply histOK_applyD hh hw (keyOK_of_goodW (by simp [hroot]) (by rw [toDOp_ts hx]; rfl) hw)
+  intro p a ts vs e
+  subst e
+  exact Or.inr (ordOK_of_goodD_ins hok)
+
+/-- **in every state reachable by calls and deliveries all arrays have causal insertion histories** -/
+theorem histOK_life (cuid : String) (create : Bool) (r : Replica) (h : Life cuid create r) :
+    ∀ d, r.state = .doc d → HistOK d := by
+  induction h with
+  | new =>
+    intro d hd
+    have : (Replica.new .document cuid create).state = .doc Doc.empty := by cases create <;> rfl
+    rw [this] at hd
+    simp only [DState.doc.injEq] at hd
+    exact hd ▸ histOK_empty
+  | step hl hs ih =>
+    have hinv := docInv_life _ _ _ hl
+    obtain ⟨d0, hs0, _, _⟩ := docInv_life _ _ _ hl
+    cases hs with
+    | call c hk => exact histOK_call _ d0 hs0 hinv (ih d0 hs0) c hk
+    | deliver d hs' o x hx hok hera hv => exact histOK_remote _ d hs' hinv (ih d hs') o x hx hok
+
+/-- **THE theorem for every reachable replica**: the statement exactly as given, for a replica reached by public calls and
+    deliveries of applicable remote operations (`DR.Life`); the only proviso: the call is not an insert of an EMPTY batch
+    (for which `GoodD` is false, see `local_call_statement_false`) -/
+theorem life_local_call_is_applicable_remote_op (cuid : String) (create : Bool) (r : Replica) (hl : Life cuid create r)
+    (d : Doc) (hs : r.state = .doc d) (c : Call) (hk : DP.CallKeysND c) (hm : DP.isMutating c = true) (v : Ret)
+    (hok : (r.call c).2 = .ok v) (hne : ∀ hd pos, c ≠ .dinsert hd pos []) :
+    ∃ (o : Op) (x : DOp) (d' : Doc),
+      (r.call c).1.buffer = r.buffer ++ [o] ∧ o.id = r.opId.next ∧
+      (r.call c).1.state = .doc d' ∧
+      toDOp o = some x ∧ GoodD d [x] ∧ ValuesOK x ∧ o.id.era = r.opId.era ∧
+      DocEq (applyD d x) d' :=
+  local_call_is_applicable_remote_op_partial r d hs (docInv_life cuid create r hl) c hk hm v hok
+    (histOK_life cuid create r hl d hs) hne
+
+/-- **the receiver, for every reachable sender**: exactly as given -/
+theorem life_receiver_reaches_senders_state (cuid : String) (create : Bool) (r q : Replica) (hl : Life cuid create r)
+    (d : Doc) (hs : r.state = .doc d) (hq : q.state = .doc d) (c : Call) (hk : DP.CallKeysND c)
+    (hm : DP.isMutating c = true) (v : Ret) (hok : (r.call c).2 = .ok v) :
+    ∃ (o : Op) (d' dq : Doc), (r.call c).1.buffer = r.buffer ++ [o] ∧ (r.call c).1.state = .doc d' ∧
+      (q.execRemoteBase o).1.state = .doc dq ∧ (q.execRemoteBase o).2 = none ∧ DocEq dq d' ∧ dq.view = d'.view :=
+  receiver_reaches_senders_state_partial r q d hs hq (docInv_life cuid create r hl) c hk hm v hok
+    (histOK_noHeadSlots (histOK_life cuid create r hl d hs))
+
+/-! ### `GoodW` is enough for the invariant under deliveries (`DR.docInv_remote` without the history clause) -/
+
+theorem dinv_applyD_weak {L : OpId} {d : Doc} (I : DInv L 0 d) (hkeys : KeysND d) (x : DOp) (hok : GoodW d x)
+    (hst : St L 0 (dts x)) (hv : ValuesOK x) : DInv L 0 (applyD d x) ∧ KeysND (applyD d x) := by
+  by_cases hins : ∃ p a ts vs, x = .a (.ins p a ts vs)
+  · obtain ⟨p, a, ts, vs, rfl⟩ := hins
+    have he : EOK d (.ins p a ts vs) := hok.2.1 _ (by simp [flat])
+    exact dinv_applyE I hkeys (.ins p a ts vs) he hst hv.2
+  · exact dinv_applyD I hkeys x (goodD_of_goodW_noIns hok (fun p a ts vs e => hins ⟨p, a, ts, vs, e⟩)) hst hv
+
+/-- a remote operation that is applicable up to the history clause keeps the document invariant -/
+theorem docInv_remote_weak (r : Replica) (d : Doc) (hs : r.state = .doc d) (h : DP.DocInv r) (o : Op) (x : DOp)
+    (hx : toDOp o = some x) (hok : GoodW d x) (hera : o.id.era = r.opId.era) (hv : ValuesOK x) :
+    DP.DocInv (r.execRemoteBase o).1 := by
+  obtain ⟨d0, hs0, I, hkeys⟩ := h
+  rw [hs] at hs0
+  simp only [DState.doc.injEq] at hs0
+  subst hs0
+  obtain ⟨h1, _⟩ := execRemoteBase_is_applyD_weak r d hs o x hx hok
+  have hstx : St (r.opId.syncLamport o.id.lamport) 0 (dts x) := by
+    rw [toDOp_ts hx]; exact st_sync_new r.opId o.id hera
+  obtain ⟨I', hk'⟩ := dinv_applyD_weak (dinv_sync o.id.lamport I) hkeys x hok hstx hv
+  refine ⟨applyD d x, h1, ?_, hk'⟩
+  rw [execRemoteBase_opId]
+  exact I'
+
+/-! ## 7. non-vacuity: a document with a nested array, a local insert in the middle of the array, a local update -/
+
+namespace ExLR
+def docOf (r : Replica) : Doc := match r.state with | .doc d => d | _ => Doc.empty
+
+def r0 : Replica := Replica.new .document "c" true
+/-- `{"a": [1, {"x": 5}, [7, 8]]}` -/
+def c1 : Call := .dput Ts.oldest "a" (.arr [.num 1, .obj [("x", .num 5)], .arr [.num 7, .num 8]])
+def r1 : Replica := (r0.call c1).1
+def arrId : Ts := ⟨0, 2, "c", 0⟩
+/-- a local insert in the middle of the array, one of the values nested -/
+def c2 : Call := .dinsert arrId 1 [.str "m", .arr [.num 3]]
+def r2 : Replica := (r1.call c2).1
+/-- a local update of two slots (the two just inserted) -/
+def c3 : Call := .dupdate arrId 1 [.obj [("k", .num 1)], .num 9]
+def r3 : Replica := (r2.call c3).1
+
+theorem life1 : Life "c" true r1 :=
+  .step .new (.call _ c1 (by simp [c1, DP.CallKeysND, JKeysND, JKeysNDList, JKeysNDKvs]))
+theorem life2 : Life "c" true r2 :=
+  .step life1 (.call _ c2 (by simp [c2, DP.CallKeysND, JKeysND, JKeysNDList, JKeysNDKvs]))
+
+/-- the operation the insert emits: anchor = the order identifier of the slot before position 1 -/
+def o2 : Op := ⟨⟨0, 3, "c", 3⟩, .docInsert arrId 0 (some ⟨0, 2, "c", 1⟩) [.str "m", .arr [.num 3]]⟩
+def x2 : DOp := .a (.ins arrId ⟨0, 2, "c", 1⟩ ⟨0, 3, "c", 0⟩ [.str "m", .arr [.num 3]])
+/-- the operation the update emits: targets = the order identifiers of the live slots 1, 2 -/
+def o3 : Op := ⟨⟨0, 4, "c", 4⟩, .docUpdate arrId 0 [⟨0, 3, "c", 0⟩, ⟨0, 3, "c", 1⟩] [.obj [("k", .num 1)], .num 9]⟩
+def x3 : DOp := .a (.upd arrId ⟨0, 4, "c", 0⟩ [⟨0, 3, "c", 0⟩, ⟨0, 3, "c", 1⟩] [.obj [("k", .num 1)], .num 9])
+
+example : r2.buffer = r1.buffer ++ [o2] := rfl
+example : toDOp o2 = some x2 := rfl
+example : r3.buffer = r2.buffer ++ [o3] := rfl
+example : toDOp o3 = some x3 := rfl
+/-- applying the denoted operations to the state before the call gives the state after the call, exactly -/
+example : applyD (docOf r1) x2 = docOf r2 := rfl
+example : applyD (docOf r2) x3 = docOf r3 := rfl
+example : ((docOf r3).view ==
+    .obj [("a", .arr [.num 1, .obj [("k", .num 1)], .num 9, .obj [("x", .num 5)], .arr [.num 7, .num 8]])]) = true := by
+  decide
+
+/-- THE theorem instantiated on the insert … -/
+example : ∃ (o : Op) (x : DOp) (d' : Doc),
+    (r1.call c2).1.buffer = r1.buffer ++ [o] ∧ o.id = r1.opId.next ∧ (r1.call c2).1.state = .doc d' ∧
+    toDOp o = some x ∧ GoodD (docOf r1) [x] ∧ ValuesOK x ∧ o.id.era = r1.opId.era ∧ DocEq (applyD (docOf r1) x) d' :=
+  life_local_call_is_applicable_remote_op "c" true r1 life1 (docOf r1) rfl c2
+    (by simp [c2, DP.CallKeysND, JKeysND, JKeysNDList, JKeysNDKvs]) rfl .none rfl (by intro hd pos e; cases e)
+
+/-- … and on the update -/
+example : ∃ (o : Op) (x : DOp) (d' : Doc),
+    (r2.call c3).1.buffer = r2.buffer ++ [o] ∧ o.id = r2.opId.next ∧ (r2.call c3).1.state = .doc d' ∧
+    toDOp o = some x ∧ GoodD (docOf r2) [x] ∧ ValuesOK x ∧ o.id.era = r2.opId.era ∧ DocEq (applyD (docOf r2) x) d' :=
+  life_local_call_is_applicable_remote_op "c" true r2 life2 (docOf r2) rfl c3
+    (by simp [c3, DP.CallKeysND, JKeysND, JKeysNDList, JKeysNDKvs]) rfl
+    (.vals [.str "m", .arr [.num 3]]) rfl (by intro hd pos e; cases e)
+
+/-- hence the emitted insert is ready for `DM.mixed_converge` / `DR.docInv_remote` at any replica holding the document -/
+example : GoodD (docOf r1) [x2] := by
+  obtain ⟨o, x, d', h1, _, _, h4, h5, _⟩ :=
+    life_local_call_is_applicable_remote_op "c" true r1 life1 (docOf r1) rfl c2
+      (by simp [c2, DP.CallKeysND, JKeysND, JKeysNDList, JKeysNDKvs]) rfl .none rfl (by intro hd pos e; cases e)
+  have e : (r1.call c2).1.buffer = r1.buffer ++ [o2] := rfl
+  rw [e] at h1
+  have := List.append_cancel_left h1
+  simp only [List.cons.injEq, and_true] at this
+  subst this
+  have e2 : toDOp o2 = some x2 := rfl
+  rw [e2] at h4
+  simp only [Option.some.injEq] at h4
+  subst h4
+  exact h5
+
+/-- a subscriber holding the same document (another client, its own clock) that receives the emitted operation -/
+def q1 : Replica := { Replica.new .document "s" false with state := r1.state }
+
+example : ∃ (o : Op) (d' dq : Doc), (r1.call c2).1.buffer = r1.buffer ++ [o] ∧ (r1.call c2).1.state = .doc d' ∧
+    (q1.execRemoteBase o).1.state = .doc dq ∧ (q1.execRemoteBase o).2 = none ∧ DocEq dq d' ∧ dq.view = d'.view :=
+  life_receiver_reaches_senders_state "c" true r1 q1 life1 (docOf r1) rfl rfl c2
+    (by simp [c2, DP.CallKeysND, JKeysND, JKeysNDList, JKeysNDKvs]) rfl .none rfl
+
+example : (q1.execRemoteBase o2).1.state = r2.state := rfl
+
+end ExLR
+
+/-! ## 8. the statements as given are false: two counterexamples -/
+
+namespace Counter
+open ExLR
+
+/-- (a) a REACHABLE state, an insert of an EMPTY batch: the call succeeds and queues an operation, but `GoodD` refuses an
+    insert without identifiers (`ACausal.nonempty`) -/
+def cE : Call := .dinsert arrId 0 []
+def oE : Op := ⟨⟨0, 3, "c", 3⟩, .docInsert arrId 0 (some Ts.oldest) []⟩
+
+theorem local_call_statement_false :
+    ¬ (∀ (r : Replica) (d : Doc) (hs : r.state = .doc d) (h : DP.DocInv r) (c : Call)
+        (hk : DP.CallKeysND c) (hm : DP.isMutating c = true) (v : Ret) (hok : (r.call c).2 = .ok v),
+        ∃ (o : Op) (x : DOp) (d' : Doc),
+          (r.call c).1.buffer = r.buffer ++ [o] ∧ o.id = r.opId.next ∧
+          (r.call c).1.state = .doc d' ∧
+          toDOp o = some x ∧ GoodD d [x] ∧ ValuesOK x ∧ o.id.era = r.opId.era ∧
+          DocEq (applyD d x) d') := by
+  intro H
+  obtain ⟨o, x, d', h1, _, _, h4, h5, _⟩ := H r1 (docOf r1) rfl (docInv_life _ _ _ life1) cE trivial rfl .none rfl
+  have e : (r1.call cE).1.buffer = r1.buffer ++ [oE] := rfl
+  rw [e] at h1
+  have := List.append_cancel_left h1
+  simp only [List.cons.injEq, and_true] at this
+  subst this
+  have e2 : toDOp oE = some (.a (.ins arrId Ts.oldest ⟨0, 3, "c", 0⟩ [])) := rfl
+  rw [e2] at h4
+  simp only [Option.some.injEq] at h4
+  subst h4
+  obtain ⟨M0, _, hc⟩ := ordOK_of_goodD_ins h5 arrId ⟨.ins arrId Ts.oldest ⟨0, 3, "c", 0⟩ [], by simp, by simp [insOnE]⟩
+  have hca := hc [⟨Ts.oldest, newSlots (.ins arrId Ts.oldest ⟨0, 3, "c", 0⟩ [])⟩] (by simp [insOnE])
+  exact hca.nonempty ⟨Ts.oldest, newSlots (.ins arrId Ts.oldest ⟨0, 3, "c", 0⟩ [])⟩ (by simp) rfl
+
+/-- (b) a state that satisfies `DP.DocInv` but is NOT reachable: the first slot of the array carries the order identifier
+    `Ts.oldest`, the identity of the head.  The local insert after that slot reports the anchor `Ts.oldest`, which a
+    receiver reads as "at the head". -/
+def A : Ts := ⟨0, 1, "c", 0⟩
+def k1 : Ts := ⟨0, 1, "c", 1⟩
+def k2 : Ts := ⟨0, 1, "c", 2⟩
+def nR : DNode := ⟨Ts.oldest, none, none, .obj [("a", A)] 1⟩
+def nA : DNode := ⟨A, none, some Ts.oldest, .arr [(Ts.oldest, k1), (k2, k2)] 2⟩
+def n1 : DNode := ⟨k1, none, some A, .elem (.num 1)⟩
+def n2 : DNode := ⟨k2, none, some A, .elem (.num 2)⟩
+def dX : Doc := ⟨[nR, nA, n1, n2]⟩
+def rX : Replica :=
+  { typ := .document, opId := ⟨0, 5, "c", 5⟩, state := .doc dX, buffer := [], cp := ⟨0, 0⟩,
+    rbOpId := ⟨0, 5, "c", 5⟩, rbSnap := .doc dX, rbOps := [] }
+
+theorem findX {p : Ts} {n : DNode} (h : dX.find p = some n) :
+    (p = Ts.oldest ∧ n = nR) ∨ (p = A ∧ n = nA) ∨ (p = k1 ∧ n = n1) ∨ (p = k2 ∧ n = n2) := by
+  have hm := find_some_mem h
+  have hc := find_some_c h
+  simp only [dX, List.mem_cons, List.not_mem_nil, or_false] at hm
+  rcases hm with rfl | rfl | rfl | rfl
+  · exact Or.inl ⟨hc.symm, rfl⟩
+  · exact Or.inr (Or.inl ⟨hc.symm, rfl⟩)
+  · exact Or.inr (Or.inr (Or.inl ⟨hc.symm, rfl⟩))
+  · exact Or.inr (Or.inr (Or.inr ⟨hc.symm, rfl⟩))
+
+theorem stX (t : Ts) (h1 : t.era = 0) (h2 : t.lamport ≤ 5) : St rX.opId 0 t := ⟨h1, Or.inl h2⟩
+
+def rkX (c : Ts) : Nat := if c = Ts.oldest then 2 else if c = A then 1 else 0
+
+theorem dinvX : DInv rX.opId 0 dX := by
+  refine ⟨⟨by decide, ?_, ?_⟩, ⟨rkX, ?_⟩, ⟨_, _, rfl⟩, ?_, ?_, ?_, ?_, ?_⟩
+  · intro p n h c hc
+    rcases findX h with ⟨rfl, rfl⟩ | ⟨rfl, rfl⟩ | ⟨rfl, rfl⟩ | ⟨rfl, rfl⟩
+    · simp only [nR, kids, List.map_cons, List.map_nil, List.mem_singleton] at hc
+      subst hc; exact ⟨nA, rfl, rfl⟩
+    · simp only [nA, kids, List.map_cons, List.map_nil, List.mem_cons, List.not_mem_nil, or_false] at hc
+      rcases hc with rfl | rfl
+      · exact ⟨n1, rfl, rfl⟩
+      · exact ⟨n2, rfl, rfl⟩
+    · simp [n1, kids] at hc
+    · simp [n2, kids] at hc
+  · intro p n h
+    rcases findX h with ⟨rfl, rfl⟩ | ⟨rfl, rfl⟩ | ⟨rfl, rfl⟩ | ⟨rfl, rfl⟩ <;> decide
+  · intro p n h c hc
+    rcases findX h with ⟨rfl, rfl⟩ | ⟨rfl, rfl⟩ | ⟨rfl, rfl⟩ | ⟨rfl, rfl⟩
+    · simp only [nR, kids, List.map_cons, List.map_nil, List.mem_singleton] at hc
+      subst hc; decide
+    · simp only [nA, kids, List.map_cons, List.map_nil, List.mem_cons, List.not_mem_nil, or_false] at hc
+      rcases hc with rfl | rfl <;> decide
+    · simp [n1, kids] at hc
+    · simp [n2, kids] at hc
+  · intro c n h
+    rcases findX h with ⟨rfl, rfl⟩ | ⟨rfl, rfl⟩ | ⟨rfl, rfl⟩ | ⟨rfl, rfl⟩
+    · show (1 : Int) = _; rfl
+    · show (2 : Int) = _; rfl
+    · trivial
+    · trivial
+  · intro c n h
+    rcases findX h with ⟨rfl, rfl⟩ | ⟨rfl, rfl⟩ | ⟨rfl, rfl⟩ | ⟨rfl, rfl⟩
+    · exact ⟨stX _ rfl (by decide), (by intro t ht; cases ht), by simp [nR, DP.ordIds]⟩
+    · refine ⟨stX _ rfl (by decide), (by intro t ht; cases ht), ?_⟩
+      intro o ho
+      simp only [nA, DP.ordIds, List.map_cons, List.map_nil, List.mem_cons, List.not_mem_nil, or_false] at ho
+      rcases ho with rfl | rfl <;> exact stX _ rfl (by decide)
+    · exact ⟨stX _ rfl (by decide), (by intro t ht; cases ht), by simp [n1, DP.ordIds]⟩
+    · exact ⟨stX _ rfl (by decide), (by intro t ht; cases ht), by simp [n2, DP.ordIds]⟩
+  · intro c n h
+    rcases findX h with ⟨rfl, rfl⟩ | ⟨rfl, rfl⟩ | ⟨rfl, rfl⟩ | ⟨rfl, rfl⟩ <;> decide
+  · intro c n h _
+    rcases findX h with ⟨rfl, rfl⟩ | ⟨rfl, rfl⟩ | ⟨rfl, rfl⟩ | ⟨rfl, rfl⟩
+    · exact Or.inl rfl
+    · exact Or.inr ⟨Ts.oldest, nR, rfl, rfl, by decide⟩
+    · exact Or.inr ⟨A, nA, rfl, rfl, by decide⟩
+    · exact Or.inr ⟨A, nA, rfl, rfl, by decide⟩
+  · intro c n v h hk
+    rcases findX h with ⟨rfl, rfl⟩ | ⟨rfl, rfl⟩ | ⟨rfl, rfl⟩ | ⟨rfl, rfl⟩
+    · cases hk
+    · cases hk
+    · simp only [n1, DKind.elem.injEq] at hk; subst hk; trivial
+    · simp only [n2, DKind.elem.injEq] at hk; subst hk; trivial
+
+theorem docInvX : DP.DocInv rX := by
+  refine ⟨dX, rfl, dinvX, ?_⟩
+  intro p n m s h hk
+  rcases findX h with ⟨rfl, rfl⟩ | ⟨rfl, rfl⟩ | ⟨rfl, rfl⟩ | ⟨rfl, rfl⟩
+  · simp only [nR, DKind.obj.injEq] at hk
+    obtain ⟨rfl, _⟩ := hk
+    decide
+  · cases hk
+  · cases hk
+  · cases hk
+
+/-- insert `9` after the first element -/
+def cX : Call := .dinsert A 1 [.num 9]
+def oX : Op := ⟨⟨0, 6, "c", 6⟩, .docInsert A 0 (some Ts.oldest) [.num 9]⟩
+
+/-- the sender shows `[1, 9, 2]`, the receiver `[9, 1, 2]` -/
+example : (docOf (rX.call cX).1).view = .obj [("a", .arr [.num 1, .num 9, .num 2])] := rfl
+example : (docOf (rX.execRemoteBase oX).1).view = .obj [("a", .arr [.num 9, .num 1, .num 2])] := rfl
+
+theorem receiver_statement_false :
+    ¬ (∀ (r q : Replica) (d : Doc) (hs : r.state = .doc d) (hq : q.state = .doc d)
+        (h : DP.DocInv r) (c : Call) (hk : DP.CallKeysND c) (hm : DP.isMutating c = true) (v : Ret)
+        (hok : (r.call c).2 = .ok v),
+        ∃ (o : Op) (d' dq : Doc), (r.call c).1.buffer = r.buffer ++ [o] ∧ (r.call c).1.state = .doc d' ∧
+          (q.execRemoteBase o).1.state = .doc dq ∧ (q.execRemoteBase o).2 = none ∧ DocEq dq d' ∧ dq.view = d'.view) := by
+  intro H
+  obtain ⟨o, d', dq, h1, h2, h3, _, _, h6⟩ := H rX rX dX rfl rfl docInvX cX
+    (by simp [cX, DP.CallKeysND, JKeysND, JKeysNDList]) rfl .none rfl
+  have e : (rX.call cX).1.buffer = rX.buffer ++ [oX] := rfl
+  rw [e] at h1
+  have := List.append_cancel_left h1
+  simp only [List.cons.injEq, and_true] at this
+  subst this
+  have e2 : (rX.call cX).1.state = .doc (docOf (rX.call cX).1) := rfl
+  have e3 : (rX.execRemoteBase oX).1.state = .doc (docOf (rX.execRemoteBase oX).1) := rfl
+  rw [e2] at h2
+  rw [e3] at h3
+  simp only [DState.doc.injEq] at h2 h3
+  subst h2 h3
+  have a : (docOf (rX.execRemoteBase oX).1).view = .obj [("a", .arr [.num 9, .num 1, .num 2])] := rfl
+  have b : (docOf (rX.call cX).1).view = .obj [("a", .arr [.num 1, .num 9, .num 2])] := rfl
+  rw [a, b] at h6
+  simp at h6
+
+/-- the same state refutes the first statement for a NON-empty insert: the array has no causal history, so `GoodD` fails
+    (and so does `DocEq (applyD d x) d'`) — `HistOK` in `local_call_is_applicable_remote_op_partial` cannot be dropped -/
+theorem not_histOK_X : ¬ HistOK dX := by
+  intro h
+  exact histOK_noHeadSlots h A (by decide)
+
+/-- … for the insert of `9` above: the emitted operation is NOT `GoodD` in `dX` (no history exists), although `dX` satisfies
+    `DP.DocInv` -/
+theorem local_call_goodD_fails_X :
+    ¬ ∃ (o : Op) (x : DOp), (rX.call cX).1.buffer = rX.buffer ++ [o] ∧ toDOp o = some x ∧ GoodD dX [x] := by
+  rintro ⟨o, x, h1, h4, h5⟩
+  have e : (rX.call cX).1.buffer = rX.buffer ++ [oX] := rfl
+  rw [e] at h1
+  have := List.append_cancel_left h1
+  simp only [List.cons.injEq, and_true] at this
+  subst this
+  have e2 : toDOp oX = some (.a (.ins A Ts.oldest ⟨0, 6, "c", 0⟩ [.num 9])) := rfl
+  rw [e2] at h4
+  simp only [Option.some.injEq] at h4
+  subst h4
+  obtain ⟨M0, hb, hc⟩ := ordOK_of_goodD_ins h5 A ⟨.ins A Ts.oldest ⟨0, 6, "c", 0⟩ [.num 9], by simp, by simp [insOnE]⟩
+  have hca := hc [⟨Ts.oldest, newSlots (.ins A Ts.oldest ⟨0, 6, "c", 0⟩ [.num 9])⟩] (by simp [insOnE])
+  exact hist_noHead ⟨M0, hb, hca.prefix⟩ (by decide)
+
+end Counter
 
 end Orda.DLR
